@@ -46,7 +46,7 @@ CONFIG = dict(
     trivial=r"^(ok|closed|bad-op|nohandle|unguarded|n\d+|at=none resp=(err|none)|r=)?$",
     rule="op lines generated from one PRNG (VERIF_SEED): cases after `reset`; node cases (3 of 4): 2-4 connections on fronts gate-1/gate-2, most given a "
          "chat instance by a front-local handler, then 15-45 operations: front-local and forwarded client requests/notifies whose handler runs a script of "
-         "1-6 session statements (get/set/bind/id/push/query/json/keep over keys chatid, _ID, ascii/unicode/empty keys; values: scalars, nested lists/maps, "
+         "1-6 session statements (get/set/bind/id/push/query/json/keep over keys chatid, _ID, ascii/unicode/empty/blank keys and keys that merely look reserved ('_', '_x', '__', '_zone', '_id', '_NetId2', '_serverid', ...); values: scalars, nested lists/maps, "
          "ints beyond 2^53, float32, typed slices, invalid-UTF-8 and HTML strings, NaN/Inf; chatid mostly a live instance, sometimes unknown/non-string/empty; "
          "_ID sometimes not a string), scripts on kept and on directly made back sessions (live, closed, never-existing connections, unknown front), "
          "close (a third of them with an application close callback: benign, panicking per-connection AddOnSessionOnClose, panicking sessions handler) mostly followed at once by a push/query from a session that still addresses the closed connection, open, the A/B/A pattern (two made sessions on different services: A sets k=v and pushes, B sets k=w and pushes, A sets k=v AGAIN and pushes) and kept sessions re-setting a key to the value they set before, cluster-view changes (every service re-published as its own member in a random node state Init/Working/Retiring/Retired, fronts mostly not Working, now and then a front or a back service missing) mostly followed at once by a query/push of a held session, pushes the handler does not wait for before it answers (`pushnw`; every answered request also reports the connection's map at the moment the front relays the answer, taken by a wrapper around the session's IClientSession), handlers that suspend without answering (`park`: they keep their HandlerContext, not the session), 1-3 requests of other connections handled by the same service type meanwhile, then `resume` (re-read the session from the context, set, push, answer), white-box snapshots of every front map; pure cases (1 of 4): bare FrontSession/BackSession objects, UpdateFromJson/FromJson incl. "
